@@ -420,11 +420,14 @@ parse_next_record_header:
     /* Deal with the decrypted message. */
     if (innerType == SSL_RECORD_TYPE_HANDSHAKE)
     {
-	unsigned char *p_start = p;
         end = p + ptLen;
         /* Parse handshake messages until buffer runs out */
         while (p != end)
         {
+            /* Start of the message parsed in this iteration: used below to
+               detect a parse that succeeds without consuming anything. */
+            unsigned char *p_start = p;
+
             rc = tls13ParseHandshakeMessage(ssl,
                     &p, end);
             if (rc < 0)
